@@ -335,7 +335,8 @@ def alias_discipline(check: Check) -> None:
         check.analysed(f)
         r, rets = ret_terms(f)
         pk2 = ("call", ("attr", ("param", "self"), "package_of"), (SETTINGS,), ())
-        special = [t for _, t in rets if t[0] == "fstr"]
+        fstrs = [s_ for _, t in rets for s_ in walk(t) if s_[0] == "fstr"]
+        special = [f_ for f_ in fstrs if not any(x_[0] == "fstr" for part in f_[1] for x_ in walk(part))]
         ok = bool(special) and all(any(s_ == pk2 for s_ in walk(t)) for t in special)
         check.require(ok, "R5", f"{qual}/prefix", "inf / nan / array are prefixed through package_of(settings)" if ok else
                       f"representation is {[show(t) for t in special]}", loc(f))
